@@ -3,7 +3,7 @@ import ast, sys, builtins, importlib.abc, importlib.machinery, re as _re, functo
 from . import core
 from .core import Unsupported
 from . import terms as T
-from .values import (SymBool, SymInt, SymStr, SymEnum, is_sym, mkbool, mkint, mkstr, chars_of, decide, zor, bt_any,
+from .values import (OpaqueStr, SymBool, SymInt, SymStr, SymEnum, is_sym, mkbool, mkint, mkstr, chars_of, decide, zor, bt_any,
                      sym_int_of_str, sym_str_of_int, concretize_int, mkbool_any, it)
 from .rx import SymPattern, ReShim
 
@@ -141,7 +141,7 @@ def _type(x):
 def _str(*a):
     if not a: return ''
     x = a[0]
-    if isinstance(x, SymStr): return x
+    if isinstance(x, (SymStr, OpaqueStr)): return x
     if hasattr(x, '__sx_str__'): return x.__sx_str__()
     if isinstance(x, SymInt): return sym_str_of_int(x)
     if isinstance(x, SymBool): return 'True' if x else 'False'
@@ -158,9 +158,9 @@ def _str(*a):
 
 def _repr(x):
     if isinstance(x, SymStr):
-        # python repr of a str: only exact when no quote/backslash/non-printable: treated as tainted
-        core.ctx().taint = True
-        return "'" + x + "'"
+        # repr of a symbolic string is used for messages only: not modelled, opaque
+        return OpaqueStr('repr of a symbolic string')
+    if isinstance(x, OpaqueStr): return x
     if isinstance(x, SymInt): return sym_str_of_int(x)
     if isinstance(x, SymBool): return 'True' if x else 'False'
     if isinstance(x, list): return '[' + _join(', ', [_repr(i) for i in x]) + ']'
@@ -173,6 +173,7 @@ def _join(sep, items):
     out = ''
     for n, i in enumerate(items):
         if n: out = out + sep
+        if isinstance(i, OpaqueStr): out = out + i; continue
         if not isinstance(i, (str, SymStr)): raise TypeError('sequence item %d: expected str instance, %s found' % (n, type(i).__name__))
         out = out + i
     return out
@@ -317,6 +318,7 @@ def sx_fmt(v, conv, spec):
     if conv == 114: v = _repr(v)
     elif conv == 115: v = _str(v)
     elif conv == 97: v = ascii(v)
+    if isinstance(v, OpaqueStr): return v
     if spec == '':
         if isinstance(v, (SymStr, str)): return v
         if isinstance(v, (SymInt, SymBool)): return _str(v)
